@@ -43,6 +43,16 @@ type Expect struct {
 	MEq      bool   `json:"mEq"`     // MarshalAgrees: fork (strict) and encoding/asn1 marshal the decoded value alike
 	MEqMode  bool   `json:"mEqMode"` // ... fork called as the mode says
 	InEffect bool   `json:"inEffect"`
+	Str      StrForm `json:"str"` // string forms (clause StringTable): tag, content octets and the Go string to expect
+}
+
+// StrForm is the string form of a case as the specification states it: the universal tag, the content octets
+// and - where the call accepts - the Go string, as code points ("runes") or as bytes ("raw").  Tag 0: none.
+type StrForm struct {
+	Tag  int    `json:"tag"`
+	Oct  []int  `json:"oct"`
+	Kind string `json:"kind"`
+	Seq  []int  `json:"seq"`
 }
 
 func (c *CaseID) key() string { return c.Shape + "/" + strings.Join(c.Wrap, "+") }
@@ -188,7 +198,7 @@ func realize(cs *Case, shapes map[string]*Node) (*realized, error) {
 func realizeInst(cs *Case, key string, tree *Node, inst int) (*realized, error) {
 	ctr := inst
 	root := build(tree, cs.C.V, &ctr, &cs.C.TF)
-	applyDefect(root, cs.C.Defect, cs.C.Path)
+	applyDefect(root, cs.C.Defect, cs.C.Path, &cs.E.Str)
 	enc := append([]byte{}, encode(root)...)
 	if cs.C.Defect == "truncated" {
 		enc = enc[:endOffset(root, cs.C.Path)-1]
@@ -210,6 +220,9 @@ func realizeInst(cs *Case, key string, tree *Node, inst int) (*realized, error) 
 		r.ctx = strings.Join(n.P, "+")
 	}
 	r.ctx += clsClass(n)
+	if n.K == "explicit" {
+		r.ctx += ">" + n.Kids[0].K // the type that receives the EXPLICIT wrapper (clause ExplicitTargets)
+	}
 	if len(cs.C.Path) > 0 {
 		r.ctx += "@" + tree.at(cs.C.Path[:len(cs.C.Path)-1]).K
 	}
